@@ -45,6 +45,10 @@ class MyBytes(bytes):
     pass
 
 
+class MyBytearray(bytearray):
+    pass
+
+
 class Node:
     """a tree whose children point back at their parent: an object graph with cycles"""
 
@@ -92,6 +96,14 @@ def values(ctx):
             10 ** 401, [0] * 300, bytes(rng.randrange(256) for _ in range(500)), "x" * 9, "x" * 10, "x" * 11, b"y" * 10,
             b"y" * 11, 12345678901, 123456789012]
     vals += cyclic_values()
+    # other built-in and library types at top level (each is an ordinary picklable object: it must come back as itself)
+    import collections
+    import datetime
+    import decimal
+    import fractions
+    vals += [bytearray(b"abc"), bytearray(b""), bytearray(b"z" * 500), MyBytearray(b"sub"), frozenset({1, 2}), complex(1, -2), range(3, 9), decimal.Decimal("1.50"),
+             fractions.Fraction(1, 3), datetime.date(2020, 1, 2), datetime.timedelta(seconds=5), collections.OrderedDict(a=1), collections.deque([1, 2]),
+             Ellipsis, NotImplemented, int, b"".join, 1e308 * 10, -0.0]
     for _ in range(60 if ctx.quick else 300):
         k = rng.randrange(6)
         n = rng.choice([0, 1, 5, 9, 10, 11, 50, 399, 400, 401, 1000])
